@@ -92,6 +92,7 @@ class World:
                 mode = args[0] if args else kwargs.get("mode", "r")
                 if isinstance(mode, str) and any(c in mode for c in "wax+"):
                     st.trace.append(("open_w", p))
+                st.meta["vpos"] = {**st.meta.get("vpos", {}), p: 0}
                 return [(Opaque("vhandle", p), st)]
             if name in ("touch", "mkdir"):
                 return [(None, st)]
@@ -141,10 +142,52 @@ class World:
                     return vpath(rs if rs.startswith("/") else f"{l.tag.rstrip('/')}/{rs}")
             return None
 
+        def handle_text(st, p):
+            t = st.meta.get("vfiles", {}).get(p, W.contents.get(p))
+            return t if isinstance(t, str) else None
+
+        def handle_read(st, p, how):
+            """Reading through a handle: the position is kept per path (reset by every open); -> text / list of lines, or None when the content is not concrete."""
+            t = handle_text(st, p)
+            if t is None:
+                return None
+            pos = dict(st.meta.get("vpos", {}))
+            k = pos.get(p, 0)
+            if st.trace[-1:] != [("read", p)]:
+                st.trace.append(("read", p))
+            if how == "line":
+                j = t.find("\n", k)
+                j = len(t) if j < 0 else j + 1
+                out = t[k:j]
+            elif how == "lines":
+                out = [x for x in _split_keep_nl(t[k:])]
+                j = len(t)
+            else:
+                out, j = t[k:], len(t)
+            pos[p] = j
+            st.meta["vpos"] = pos
+            return out
+
+        def _split_keep_nl(t):
+            # text-mode file iteration splits on "\n" only (universal newlines aside), unlike str.splitlines
+            parts = t.split("\n")
+            return [x + "\n" for x in parts[:-1]] + ([parts[-1]] if parts[-1] else [])
+
         def handle_method(I, recv, name, args, kwargs, st, node):
             if name == "write":
                 st.trace.append(("write_text", recv.tag, snapshot(I, args[0], st) if args else None))
+            if name in ("read", "readline", "readlines") and not args:
+                r = handle_read(st, recv.tag, {"read": "all", "readline": "line", "readlines": "lines"}[name])
+                if r is None:
+                    st.note(f"read through a handle of {recv.tag}, whose content is not concrete")
+                    return [(Unknown("filetext"), st)]
+                return [((st.alloc(HObj("list", items=r)) if isinstance(r, list) else r), st)]
             return [(recv if name == "__enter__" else None, st)]
+
+        def handle_iter(I, v, st):
+            if v.cls != "vhandle":
+                return None
+            return handle_read(st, v.tag, "lines")
 
         def json_method(I, recv, name, args, kwargs, st, node):
             if name == "loads":
@@ -255,7 +298,7 @@ class World:
                 return v.tag
             return None
 
-        return {"method:*": ext_method, "getattr:*": ext_getattr, "call:*": call_any, "binop": binop, "str": to_str,
+        return {"method:*": ext_method, "getattr:*": ext_getattr, "call:*": call_any, "binop": binop, "str": to_str, "iter": handle_iter,
                 "zorg.service.compiler._api.walk_zorg_page": walk_page, f"{H}._hash_file": hash_file, "zorg.shared.common.zprint": noop}
 
     # ------------------------------------------------------------------ objects
